@@ -157,3 +157,27 @@ Proof.
       cbv zeta in H. change (rs0) with (mkRstate false None [] 0) in H.
       destruct (reflex_loop (S (List.length (c :: r))) (c :: r) 0 (mkRstate false None [] 0) [] []) as [[T E] rs]. exact (W _ _ _ _ _ H).
 Qed.
+
+(** ** ... and keeps the line protocol: the monitor of C04 is on when the run ends, at the end of the text *)
+Theorem lex_lines_macro_free msep src :
+  okP (body_of src) = true ->
+  let r := lex (mkCfg false msep) src in
+  lr_outcome r = None /\
+  g_lines_ok (s_ghost (lr_state r)) = true /\ g_line_debt (s_ghost (lr_state r)) = false /\
+  c_rest (s_cur (lr_state r)) = [].
+Proof.
+  assert (W : forall (r : lex_result),
+            lr_outcome r = None /\ lines_pos (lr_state r) /\ c_rest (s_cur (lr_state r)) = [] ->
+            lr_outcome r = None /\ g_lines_ok (s_ghost (lr_state r)) = true /\ g_line_debt (s_ghost (lr_state r)) = false /\
+            c_rest (s_cur (lr_state r)) = []).
+  { intros r (H1 & [_ [H2 H3]] & H4). repeat (split; [assumption|]). assumption. }
+  intros Hok. cbv zeta. unfold lex, body_of in *. unfold split_bom in *.
+  destruct src as [|c r].
+  - cbn [snd] in *. apply W.
+    exact (lex_text_lines [] 0 0 msep okP okP_tail (all_classes [] 0 (S (List.length (@nil char))) msep _) Hok).
+  - change BOM with 65279 in *. destruct (c =? 65279) eqn:Eb.
+    + cbn [snd] in *. apply W.
+      exact (lex_text_lines r (utf8_len c) 1 msep okP okP_tail (all_classes r (utf8_len c) (S (List.length r)) msep _) Hok).
+    + cbn [snd] in *. apply W.
+      exact (lex_text_lines (c :: r) 0 0 msep okP okP_tail (all_classes (c :: r) 0 (S (List.length (c :: r))) msep _) Hok).
+Qed.
